@@ -289,7 +289,7 @@ def extra_checks(tier, seed):
         return [_rec("c14_encode", "INCONCLUSIVE", time.time() - t0, notes=["cannot dump/parse MIR: %s" % e])]
     if "encode_with_dist_header_multi" not in code[0]:
         return [_rec("c14_encode", "INCONCLUSIVE", time.time() - t0, notes=["encode_with_dist_header_multi not found in the MIR dump"])]
-    cases = [(1, False), (2, False), (3, False), (2, True), (3, True)] + ([(4, False), (4, True)] if tier == "thorough" else [])
+    cases = [(1, False), (2, False), (3, False), (2, True), (3, True)] + ([(4, False), (4, True), (5, False)] if tier == "thorough" else [])
     for k, wrap in cases:
         r = run_case(k, code, wrap)
         out.append(r)
